@@ -473,14 +473,21 @@ class Subject:
         self.opts = dict(spec.get("opts", {}))
         self._space = None
 
+    def _hw(self, default: int = 16) -> Tuple[int, int]:
+        """(height, width) of image inputs; opts["hw"] is an int (square) or [height, width]."""
+        hw = self.opts.get("hw", default)
+        if isinstance(hw, (list, tuple)):
+            return int(hw[0]), int(hw[1])
+        return int(hw), int(hw)
+
     # ---- spaces
     def space(self):
         from gymnasium import spaces
 
         if self._space is not None:
             return self._space
-        hw = self.opts.get("hw", 16)
-        img = spaces.Box(0.0, 1.0, (3, hw, hw), dtype=np.float32)
+        h, w = self._hw(16)
+        img = spaces.Box(0.0, 1.0, (3, h, w), dtype=np.float32)
         vec = spaces.Box(-1.0, 1.0, (5,), dtype=np.float32)
         seq = spaces.Box(-1.0, 1.0, (4, 3), dtype=np.float32)
         o = self.obs
@@ -541,27 +548,27 @@ class Subject:
             o.setdefault("hidden_size", 64)
             return EvolvableLSTM(input_size=3, num_outputs=3, **o)
         if k == "CNN2d":
-            hw = self.opts.get("hw", 16)
+            h, w = self._hw(16)
             o.setdefault("channel_size", [32])
             o.setdefault("kernel_size", [3] * len(o["channel_size"]))
             o.setdefault("stride_size", [1] * len(o["channel_size"]))
-            return EvolvableCNN(input_shape=[3, hw, hw], num_outputs=4, **o)
+            return EvolvableCNN(input_shape=[3, h, w], num_outputs=4, **o)
         if k == "CNN3d":
-            hw = self.opts.get("hw", 16)
+            h, w = self._hw(16)
             o.setdefault("channel_size", [32, 32])
             o.setdefault("kernel_size", [3] * len(o["channel_size"]))
             o.setdefault("stride_size", [1] * len(o["channel_size"]))
             return EvolvableCNN(
-                input_shape=[2, hw, hw], num_outputs=4, block_type="Conv3d", sample_input=torch.zeros(1, 2, 2, hw, hw), **o
+                input_shape=[2, h, w], num_outputs=4, block_type="Conv3d", sample_input=torch.zeros(1, 2, 2, h, w), **o
             )
         if k == "ResNet":
-            hw = self.opts.get("hw", 8)
+            h, w = self._hw(8)
             o.setdefault("channel_size", 32)
             o.setdefault("kernel_size", 3)
             o.setdefault("stride_size", 1)
             o.setdefault("num_blocks", 1)
             o.setdefault("scale_factor", 1)
-            return EvolvableResNet(input_shape=[3, hw, hw], num_outputs=4, **o)
+            return EvolvableResNet(input_shape=[3, h, w], num_outputs=4, **o)
         if k == "MultiInput":
             return EvolvableMultiInput(observation_space=self.space(), num_outputs=4, **o)
         return self._make_network(o)
@@ -588,9 +595,9 @@ class Subject:
             kw["encoder_config"] = {"hidden_size": 32, "num_layers": 1, "min_hidden_size": 16, "max_hidden_size": 128}
         if self.obs == "resnet":
             kw["encoder_cls"] = "ResNet"
-            hw = self.opts.get("hw", 16)
+            h, w = self._hw(16)
             kw["encoder_config"] = {
-                "input_shape": [3, hw, hw],
+                "input_shape": [3, h, w],
                 "channel_size": 32,
                 "kernel_size": 3,
                 "stride_size": 2,
@@ -641,14 +648,14 @@ class Subject:
         if k == "LSTM":
             return (torch.randn((n, 4, 3), generator=gen),)
         if k == "CNN2d":
-            hw = self.opts.get("hw", 16)
-            return (torch.rand((n, 3, hw, hw), generator=gen),)
+            h, w = self._hw(16)
+            return (torch.rand((n, 3, h, w), generator=gen),)
         if k == "CNN3d":
-            hw = self.opts.get("hw", 16)
-            return (torch.rand((n, 2, 2, hw, hw), generator=gen),)
+            h, w = self._hw(16)
+            return (torch.rand((n, 2, 2, h, w), generator=gen),)
         if k == "ResNet":
-            hw = self.opts.get("hw", 8)
-            return (torch.rand((n, 3, hw, hw), generator=gen),)
+            h, w = self._hw(8)
+            return (torch.rand((n, 3, h, w), generator=gen),)
         obs = self._obs_batch(n, gen)
         if k == "ContinuousQNetwork":
             return (obs, torch.rand((n, 2), generator=gen) * 2.0 - 1.0)
@@ -1247,7 +1254,8 @@ def bfs_subjects(tier):
         {"kind": "LSTM", "opts": dict(hidden_size=8, num_layers=1, min_hidden_size=8, max_hidden_size=24, min_layers=1, max_layers=3)},
         {"kind": "ResNet", "opts": dict(hw=6, channel_size=8, num_blocks=1, min_channel_size=8, max_channel_size=24,
                                          min_blocks=1, max_blocks=3, scale_factor=1)},
-        {"kind": "CNN2d", "opts": dict(hw=16, channel_size=[8], kernel_size=[3], stride_size=[2], min_channel_size=8,
+        # non-square (tall and narrow) graph: kernel limits of the second layer depend on the WIDTH that is left
+        {"kind": "CNN2d", "opts": dict(hw=[24, 10], channel_size=[8, 8], kernel_size=[3, 3], stride_size=[1, 1], min_channel_size=8,
                                         max_channel_size=16, min_hidden_layers=1, max_hidden_layers=2, layer_norm=True)},
         {"kind": "MLP", "opts": dict(small_mlp, layer_norm=False, noisy=True, hidden_size=[16, 8])},
     ]
@@ -1274,15 +1282,17 @@ MODULE_SUBJECTS = [
     {"kind": "SimBa", "opts": dict(hidden_size=128, num_blocks=2, scale_factor=2)},
     {"kind": "LSTM", "opts": {}},
     {"kind": "LSTM", "opts": dict(hidden_size=32, num_layers=2)},
-    {"kind": "CNN2d", "opts": dict(hw=16)},
+    # image sizes: tall-narrow (64x10, 40x6), wide-flat (10x64), small odd (9x7) and square ones
+    {"kind": "CNN2d", "opts": dict(hw=[64, 10], channel_size=[32, 32], kernel_size=[3, 3], stride_size=[1, 1])},
     {"kind": "CNN2d", "opts": dict(hw=32, channel_size=[32, 32], kernel_size=[4, 3], stride_size=[2, 1], layer_norm=True)},
+    {"kind": "CNN2d", "opts": dict(hw=[9, 7], channel_size=[32, 32], kernel_size=[2, 2], stride_size=[1, 1])},
     {"kind": "CNN2d", "opts": dict(hw=8, channel_size=[32], kernel_size=[3], stride_size=[1])},
-    {"kind": "CNN3d", "opts": dict(hw=16)},
-    {"kind": "CNN3d", "opts": dict(hw=16, channel_size=[32], kernel_size=[3], stride_size=[1])},
+    {"kind": "CNN3d", "opts": dict(hw=[40, 6])},
+    {"kind": "CNN3d", "opts": dict(hw=[10, 64], channel_size=[32, 32], kernel_size=[3, 3], stride_size=[2, 1])},
     {"kind": "ResNet", "opts": dict(hw=8)},
-    {"kind": "ResNet", "opts": dict(hw=8, kernel_size=2, num_blocks=2, channel_size=64, scale_factor=2)},
-    {"kind": "MultiInput", "obs": "dict", "opts": {}},
-    {"kind": "MultiInput", "obs": "tuple", "opts": dict(vector_space_mlp=True)},
+    {"kind": "ResNet", "opts": dict(hw=[9, 6], kernel_size=2, num_blocks=2, channel_size=64, scale_factor=2)},
+    {"kind": "MultiInput", "obs": "dict", "opts": dict(hw=[40, 6])},
+    {"kind": "MultiInput", "obs": "tuple", "opts": dict(vector_space_mlp=True, hw=[10, 64])},
     {"kind": "MultiInput", "obs": "dict3", "opts": dict(recurrent=True, vector_space_mlp=True)},
     {"kind": "MultiInput", "obs": "dict3", "opts": dict(recurrent=False, latent_dim=32)},
 ]
@@ -1294,6 +1304,21 @@ NETWORKS = {
     "ValueNetwork": (["vector", "image", "dict", "tuple", "seq_rec", "simba", "discrete", "image_cfg"], [None]),
     "DeterministicActor": (["vector", "image", "dict", "tuple", "seq_rec", "simba", "vector_cfg"], ["box", "discrete"]),
     "StochasticActor": (["vector", "image", "dict", "tuple", "seq_rec", "simba"], ["box", "discrete", "multidiscrete", "multibinary", "box_squash"]),
+}
+
+
+# non-square image members for the networks over image / dict / tuple spaces (the others stay 16x16)
+NONSQUARE = {
+    ("QNetwork", "image"): [64, 10],
+    ("QNetwork", "dict"): [40, 6],
+    ("RainbowQNetwork", "image"): [10, 64],
+    ("RainbowQNetwork", "tuple"): [9, 7],
+    ("ContinuousQNetwork", "image"): [9, 7],
+    ("ContinuousQNetwork", "dict"): [10, 64],
+    ("ValueNetwork", "tuple"): [40, 6],
+    ("DeterministicActor", "image"): [40, 6],
+    ("StochasticActor", "image"): [9, 7],
+    ("StochasticActor", "dict"): [10, 64],
 }
 
 
@@ -1310,5 +1335,7 @@ def network_subjects():
                     opts = {"action": "box", "squash_output": True}
                 elif act is not None:
                     opts = {"action": act}
+                if (kind, obs) in NONSQUARE:
+                    opts["hw"] = list(NONSQUARE[(kind, obs)])
                 out.append({"kind": kind, "obs": obs, "opts": opts})
     return out
